@@ -8,11 +8,23 @@
         answer: `ok <value> <pos>` | `no <pos>` | `err <class>`
     mp.skip <mem|stream> <pre> <hex>    answer: `ok <pos>` | `err <class>`
     mp.type <mem|stream> <pre> <hex>    answer: `ok <ValueType number> <pos>` | `err <class>`
-  The model is the string reader; `stream` ops are answered by the same model (every divergence of
-  the stream reader shows up as DISAGREE).
+    mp.seq <mem|stream> <ovf> <mis> <hex> <call;call;…>   a HISTORY of calls on one reader object (harness/ops_mpstream.cpp)
+        call: type skip nil bool u8…i64 f32 f64 str ts arr map bin rb pos set:<q> end
+        answer: `<value>@<pos>` | `no@<pos>` per call joined by `;`, the first exception ends it with `err:<class>`
+    mp.wseq <call,call,…>   a SESSION of writer calls on one string writer and one stream writer (harness/ops_mpstream.cpp)
+        call: nil bool:<0|1> u8…i64:<dec> f32:<hex8> f64:<hex16> str:<hex> ts:<sec>:<ns> arr:<n> map:<n> bin:<n> bb:<byte>
+        answer as for mp.write
+  `mp.write`/`mp.wseq` are answered by BOTH writer models (string writer, stream writer on an empty stream).
+  `mem` ops are answered by the string-reader model (MsgPack/Reader.lean); `stream` ops by the STREAM-reader model
+  (MsgPack/StreamReader.lean) run over the model of CBinaryStreamReader with the chunk size of the code (generated
+  constant) and driven exactly as the harness drives the real reader (`pre` SkipValue calls, then the call).
+  The verdict (Oracle) judges the implementation answer against the Spec and is the same for both sources; for
+  `mp.seq stream` the verdict compares the stream answer with the string-reader model (the C10 property itself).
 -/
 import BSVerif.MsgPack.Oracle
 import BSVerif.MsgPack.Reader
+import BSVerif.MsgPack.StreamReader
+import BSVerif.MsgPack.StreamWriter
 
 namespace BSVerif.Driver.MsgPack
 open BSVerif BSVerif.MsgPack BSVerif.MsgPack.Model
@@ -46,9 +58,20 @@ def modelWriteInt (ty : String) (v : Int) : Bytes :=
   | "u8" => writeU8 v.toNat | "u16" => writeU16 v.toNat | "u32" => writeU32 v.toNat | "u64" => writeU64 v.toNat
   | "i8" => writeI8 v | "i16" => writeI16 v | "i32" => writeI32 v | _ => writeI64 v
 
-def renderW : Except WErr Bytes → String
-  | .ok b => s!"{hexBytes b} same"
-  | .error .outOfRange => "err ser_out_of_range"
+/-- answer in the harness format from the two models: `a` = string writer (MsgPack/Writer.lean), `b` = stream writer
+    (MsgPack/StreamWriter.lean run on an empty stream) — they agree by `C10mp.stream_writer_equals_string_writer` -/
+def renderW2 (a : Except WErr Bytes) (b : Except WErr Bytes) : String :=
+  match a, b with
+  | .ok x, .ok y => if x = y then s!"{hexBytes x} same" else s!"{hexBytes x} diff {hexBytes y}"
+  | .error .outOfRange, .error .outOfRange => "err ser_out_of_range"
+  | .ok x, .error .outOfRange => s!"mixed {hexBytes x} err:ser_out_of_range"
+  | .error .outOfRange, .ok y => s!"mixed err:ser_out_of_range {hexBytes y}"
+
+open BSVerif.MsgPack.StreamWriterModel (WCall) in
+def modelWCallInt (ty : String) (v : Int) : WCall :=
+  match ty with
+  | "u8" => .u8 v.toNat | "u16" => .u16 v.toNat | "u32" => .u32 v.toNat | "u64" => .u64 v.toNat
+  | "i8" => .i8 v | "i16" => .i16 v | "i32" => .i32 v | _ => .i64 v
 
 def parseWAns (s : String) : Oracle.WAns :=
   match s.splitOn " " with
@@ -58,42 +81,77 @@ def parseWAns (s : String) : Oracle.WAns :=
   | "mixed" :: _ => .bytes [] false
   | _ => .other
 
+open BSVerif.MsgPack.StreamWriterModel (WCall) in
 def handleWrite (args : List String) (impl : Option String) : Option (String × String) := do
-  let (model, req) : Except WErr Bytes × Oracle.WReq ← (match args with
-    | ["nil"] => some (.ok writeNil, .tok .nil)
-    | ["bool", b] => if b = "1" then some (.ok (writeBool true), .tok (.bool true))
-                     else if b = "0" then some (.ok (writeBool false), .tok (.bool false)) else none
+  let (call, req) : WCall × Oracle.WReq ← (match args with
+    | ["nil"] => some (.nil, .tok .nil)
+    | ["bool", b] => if b = "1" then some (.bool true, .tok (.bool true))
+                     else if b = "0" then some (.bool false, .tok (.bool false)) else none
     | ["f32", h] => do
       let b ← parseHexNat h
-      if h.length ≠ 8 then none else some (.ok (writeF32 b), .tok (.f32 b))
+      if h.length ≠ 8 then none else some (.f32 b, .tok (.f32 b))
     | ["f64", h] => do
       let b ← parseHexNat h
-      if h.length ≠ 16 then none else some (.ok (writeF64 b), .tok (.f64 b))
+      if h.length ≠ 16 then none else some (.f64 b, .tok (.f64 b))
     | ["str", h] => do
       let d ← parseBytes h
-      some (writeStr d, .tok (.str d))
+      some (.str d, .tok (.str d))
     | ["ts", s, n] => do
       let s ← parseInt s; let n ← parseInt n
       if s < -9223372036854775808 ∨ s > 9223372036854775807 ∨ n < -2147483648 ∨ n > 2147483647 then none
-      else some (.ok (writeTs s n), .ts s n)
+      else some (.ts s n, .ts s n)
     | ["arr", n] => do
       let n ← n.toNat?
-      if n ≥ 2 ^ 64 then none else some (beginArray n, if n < 2 ^ 32 then .tok (.array n) else .tooLarge)
+      if n ≥ 2 ^ 64 then none else some (.arr n, if n < 2 ^ 32 then .tok (.array n) else .tooLarge)
     | ["map", n] => do
       let n ← n.toNat?
-      if n ≥ 2 ^ 64 then none else some (beginMap n, if n < 2 ^ 32 then .tok (.map n) else .tooLarge)
+      if n ≥ 2 ^ 64 then none else some (.map n, if n < 2 ^ 32 then .tok (.map n) else .tooLarge)
     | ["bin", n] => do
       let n ← n.toNat?
-      if n ≥ 2 ^ 64 then none else some (beginBinary n, if n < 2 ^ 32 then .binHeader n else .tooLarge)
+      if n ≥ 2 ^ 64 then none else some (.bin n, if n < 2 ^ 32 then .binHeader n else .tooLarge)
     | [ty, v] => do
       let (lo, hi) ← intRange ty
       let v ← parseInt v
-      if v < lo ∨ v > hi then none else some (.ok (modelWriteInt ty v), .tok (.int v))
+      if v < lo ∨ v > hi then none else some (modelWCallInt ty v, .tok (.int v))
     | _ => none)
+  -- string writer model, and stream writer model on a fresh (empty) stream as the harness does
+  let a := StreamWriterModel.stringCall call
+  let b := (StreamWriterModel.streamCall call ⟨[]⟩).map (·.out)
   let v := match impl with
     | some i => verdictStr (Oracle.judgeWrite req (parseWAns i))
     | none => "nospec"
-  pure (renderW model, v)
+  pure (renderW2 a b, v)
+
+open BSVerif.MsgPack.StreamWriterModel (WCall) in
+def parseWCall (s : String) : Option WCall :=
+  match s.splitOn ":" with
+  | ["nil"] => some .nil
+  | ["bool", "0"] => some (.bool false) | ["bool", "1"] => some (.bool true)
+  | ["f32", h] => if h.length = 8 then (parseHexNat h).map .f32 else none
+  | ["f64", h] => if h.length = 16 then (parseHexNat h).map .f64 else none
+  | ["str", h] => (parseBytes h).map .str
+  | ["ts", a, b] => do
+    let a ← parseInt a; let b ← parseInt b
+    if a < -9223372036854775808 ∨ a > 9223372036854775807 ∨ b < -2147483648 ∨ b > 2147483647 then none else some (.ts a b)
+  | ["arr", n] => do let n ← n.toNat?; if n ≥ 2 ^ 64 then none else some (.arr n)
+  | ["map", n] => do let n ← n.toNat?; if n ≥ 2 ^ 64 then none else some (.map n)
+  | ["bin", n] => do let n ← n.toNat?; if n ≥ 2 ^ 64 then none else some (.bin n)
+  | ["bb", n] => do let n ← n.toNat?; if n ≥ 256 then none else some (.binByte n)
+  | [ty, v] => do
+    let (lo, hi) ← intRange ty
+    let v ← parseInt v
+    if v < lo ∨ v > hi then none else some (modelWCallInt ty v)
+  | _ => none
+
+/-- `mp.wseq`: both writer models over the whole session; verdict: the two implementation outputs must be identical -/
+def handleWSeq (calls : String) (impl : Option String) : Option (String × String) := do
+  let cs ← (calls.splitOn ",").mapM parseWCall
+  let a := StreamWriterModel.stringSession cs []
+  let b := (StreamWriterModel.streamSession cs ⟨[]⟩).map (·.out)
+  let v := match impl with
+    | some i => if i.endsWith " same" ∨ i.startsWith "err " then "ok" else "bad:stream_writer_bytes_differ_from_memory_writer"
+    | none => "nospec"
+  pure (renderW2 a b, v)
 
 /-! #### mp.read -/
 
@@ -113,9 +171,9 @@ def renderRR (f : α → String) : RR α → String
   | .ok (none, p) => s!"no {p}"
   | .error e => s!"err {errStr e}"
 
-def modelRead (stream : Bool) (T : String) (o : Opts) (bs : Bytes) (pos : Nat) : Option String :=
+def modelRead (T : String) (o : Opts) (bs : Bytes) (pos : Nat) : Option String :=
   match T with
-  | "nil" => some (renderRR (fun _ => "-") (if stream then readNilStream o bs pos else readNil o bs pos))
+  | "nil" => some (renderRR (fun _ => "-") (readNil o bs pos))
   | "f32" => some (renderRR (hexFixed 8) (readF32 o bs pos))
   | "f64" => some (renderRR (hexFixed 16) (readF64 o bs pos))
   | "str" => some (renderRR hexBytes (readStr o bs pos))
@@ -124,6 +182,84 @@ def modelRead (stream : Bool) (T : String) (o : Opts) (bs : Bytes) (pos : Nat) :
   | "map" => some (renderRR toString (readMapSize o bs pos))
   | "bin" => some (renderRR toString (readBinarySize o bs pos))
   | _ => (intTy T).map fun ty => renderRR toString (readInteger ty o bs pos)
+
+/-! #### the stream reader: CMsgPackStreamReader model over the CBinaryStreamReader model -/
+
+section stream
+open BSVerif.MsgPack.StreamModel (Call Ans Prog callProg readerSrc)
+
+/-- the reader object the harness builds: constructor, then `pre` SkipValue calls over the nil padding;
+    `none` = the padding could not be consumed (the harness reports a logic error) -/
+def openStream (fuel : Nat) (bs : Bytes) : Nat → Option BinStream.Reader
+  | 0 => some (BinStream.Reader.mk' Generated.Msgpack.binaryStreamChunkSize bs)
+  | pre + 1 =>
+    match openStream fuel bs pre with
+    | none => none
+    | some r =>
+      match StreamModel.run readerSrc (StreamModel.skip fuel) r with
+      | .ok (_, r') => some r'
+      | .error _ => none
+
+def callOfT (T : String) : Option Call :=
+  match T with
+  | "nil" => some .nil | "f32" => some .f32 | "f64" => some .f64 | "str" => some .str | "ts" => some .ts
+  | "arr" => some .arraySize | "map" => some .mapSize | "bin" => some .binarySize
+  | _ => (intTy T).map .int
+
+/-- value as the harness prints it -/
+def renderAns (c : Call) : Ans → String
+  | .unit => "-" | .no => "no"
+  | .nat n => (match c with | .f32 => hexFixed 8 n | .f64 => hexFixed 16 n | _ => toString n)
+  | .int i => toString i | .bytes b => hexBytes b | .ts s n => s!"{s}:{n}"
+  | .bool b => if b then "1" else "0"
+
+/-- one `mp.read stream` / `mp.skip stream` / `mp.type stream` op -/
+def modelStreamCall (o : Opts) (bs : Bytes) (pre : Nat) (c : Call) : String :=
+  let fuel := bs.length + 1
+  match openStream fuel bs pre with
+  | none => "err logic_error"
+  | some r =>
+    if r.getPosition ≠ pre then "err logic_error"
+    else
+      match StreamModel.run readerSrc (callProg fuel o c) r with
+      | .error e => s!"err {errStr e}"
+      | .ok (a, r') =>
+        match c, a with
+        | .skip, _ => s!"ok {r'.getPosition}"
+        | _, .no => s!"no {r'.getPosition}"
+        | _, a => s!"ok {renderAns c a} {r'.getPosition}"
+
+def parseCall (s : String) : Option Call :=
+  match s with
+  | "type" => some .valueType | "skip" => some .skip | "rb" => some .binary | "pos" => some .getPos | "end" => some .isEnd
+  | _ =>
+    match s.splitOn ":" with
+    | ["set", q] => q.toNat?.map .setPos
+    | [T] => callOfT T
+    | _ => none
+
+/-- error classes as `describeException` names them in a history: the only reachable "internal" error is the
+    std::invalid_argument of SetPosition / ReadExtSize -/
+def errStrSeq : Err → String
+  | .internal => "invalid_argument"
+  | e => errStr e
+
+/-- answers of a history as the harness prints them: position after every call -/
+def renderHistMem (o : Opts) (bs : Bytes) : Nat → List Call → List String
+  | _, [] => []
+  | pos, c :: cs =>
+    match StreamModel.callString o bs pos c with
+    | .ok (a, p) => s!"{renderAns c a}@{p}" :: renderHistMem o bs p cs
+    | .error e => [s!"err:{errStrSeq e}"]
+
+def renderHistStream (fuel : Nat) (o : Opts) : BinStream.Reader → List Call → List String
+  | _, [] => []
+  | r, c :: cs =>
+    match StreamModel.run readerSrc (callProg fuel o c) r with
+    | .ok (a, r') => s!"{renderAns c a}@{r'.getPosition}" :: renderHistStream fuel o r' cs
+    | .error e => [s!"err:{errStrSeq e}"]
+
+end stream
 
 def parseVal (T : String) (s : String) : Option Oracle.Val :=
   match T with
@@ -160,6 +296,7 @@ def padded (pre : Nat) (b : Bytes) : Bytes := List.replicate pre 0xC0 ++ b
 def handle (toks : List String) (impl : Option String) : Option (String × String) :=
   match toks with
   | "mp.write" :: args => handleWrite args impl
+  | ["mp.wseq", calls] => handleWSeq calls impl
   | ["mp.read", src, ovf, mis, T, pre, hex] => do
     if src ≠ "mem" ∧ src ≠ "stream" then none
     let ovf ← parsePolicy ovf; let mis ← parsePolicy mis
@@ -167,7 +304,7 @@ def handle (toks : List String) (impl : Option String) : Option (String × Strin
     if !bytesOk b then none
     let tgt ← tgtOf T
     let bs := padded pre b
-    let m ← modelRead (src == "stream") T ⟨ovf, mis⟩ bs pre
+    let m ← (if src == "stream" then (callOfT T).map (modelStreamCall ⟨ovf, mis⟩ bs pre) else modelRead T ⟨ovf, mis⟩ bs pre)
     let v := match impl with
       | some i => verdictStr (Oracle.judgeRead tgt ovf mis bs pre (parseAns T i))
       | none => "nospec"
@@ -177,7 +314,8 @@ def handle (toks : List String) (impl : Option String) : Option (String × Strin
     let pre ← pre.toNat?; let b ← parseBytes hex
     if !bytesOk b then none
     let bs := padded pre b
-    let m := match skip bs pre with | .ok p => s!"ok {p}" | .error e => s!"err {errStr e}"
+    let m := if src == "stream" then modelStreamCall ⟨true, true⟩ bs pre .skip
+      else match skip bs pre with | .ok p => s!"ok {p}" | .error e => s!"err {errStr e}"
     let v := match impl with
       | some i => verdictStr (Oracle.judgeSkip bs pre (parsePosAns i))
       | none => "nospec"
@@ -187,9 +325,25 @@ def handle (toks : List String) (impl : Option String) : Option (String × Strin
     let pre ← pre.toNat?; let b ← parseBytes hex
     if !bytesOk b then none
     let bs := padded pre b
-    let m := match readValueType bs pre with | .ok t => s!"ok {t} {pre}" | .error e => s!"err {errStr e}"
+    let m := if src == "stream" then modelStreamCall ⟨true, true⟩ bs pre .valueType
+      else match readValueType bs pre with | .ok t => s!"ok {t} {pre}" | .error e => s!"err {errStr e}"
     let v := match impl with
       | some i => verdictStr (Oracle.judgeType bs pre (parseTypeAns i))
+      | none => "nospec"
+    pure (m, v)
+  | ["mp.seq", src, ovf, mis, hex, calls] => do
+    if src ≠ "mem" ∧ src ≠ "stream" then none
+    let ovf ← parsePolicy ovf; let mis ← parsePolicy mis
+    let bs ← parseBytes hex
+    if !bytesOk bs then none
+    let cs ← (calls.splitOn ";").mapM parseCall
+    let mem := ";".intercalate (renderHistMem ⟨ovf, mis⟩ bs 0 cs)
+    let m := if src == "stream" then
+        ";".intercalate (renderHistStream (bs.length + 1) ⟨ovf, mis⟩ (BinStream.Reader.mk' Generated.Msgpack.binaryStreamChunkSize bs) cs)
+      else mem
+    -- the property itself: the stream reader must answer as the string-reader model does
+    let v := match impl with
+      | some i => if src == "stream" then (if i = mem then "ok" else "bad:stream_history_differs_from_string_reader") else "nospec"
       | none => "nospec"
     pure (m, v)
   | _ => none
